@@ -178,6 +178,7 @@ type c19OCICase struct {
 	Entries []ociEnt `json:"entries"`
 	Corrupt int      `json:"corrupt"` // 0 none, 1 truncate, 2 flip bytes, 3 garbage layer
 	CutAt   int      `json:"cutAt"`
+	Raw     []byte   `json:"raw,omitempty"` // native fuzzing: the layer bytes as they are
 }
 
 type ociEnt struct {
@@ -203,6 +204,9 @@ func runC19OCI(c *c19OCICase) (int, error) {
 	}
 	_ = tw.Close()
 	raw := buf.Bytes()
+	if c.Raw != nil {
+		raw = c.Raw
+	}
 	switch c.Corrupt {
 	case 1:
 		if len(raw) > 0 {
